@@ -81,7 +81,10 @@ def install(ctx):
             got = np.asarray(result.to(target_unit).value, float)
         except Exception:
             return True
-        if got.shape != ref.shape or not O.close(got, ref, 1e-12):
+        # single-precision inputs (files stored as 1E) are converted with single-precision intermediate results by numpy's own
+        # type rules: agreement to 1e-6 is what such data can carry; double-precision inputs must agree to 1e-12
+        single = np.asarray(flux.value).dtype.itemsize < 8 or np.asarray(nu.value).dtype.itemsize < 8
+        if got.shape != ref.shape or not O.close(got, ref, 1e-6 if single else 1e-12):
             ctx.violation('convert:%s->%s' % (a, b), 'conversion disagrees with F = nu F_nu, L = F d^2',
                           {'from': a, 'to': b, 'nu': nuv, 'distance_cm': d, 'in': flux.value, 'got': got, 'expected': ref})
         return True
@@ -100,7 +103,7 @@ def run(ctx):
     ctx.assume('oracle: explicit cgs factors (1 mJy = 1e-26 erg/s/cm2/Hz, 1 W/m2 = 1e3 erg/s/cm2, L = F d^2 with d in cm as the statement says)',
                'rtol 1e-12', 'a file without the DISTANCE keyword is read as being at 1 kpc (the fallback the reader documents)')
     ctx.require_events('convert_flux:post', 'read:matrix', 'roundtrip:ABA', 'chain:ABC', 'refused:target', 'refused:stored')
-    ctx.require_regimes('stored:desc-wav', 'stored:asc-wav', 'read-order:nu', 'read-order:wav', 'stored:nu-in-GHz', 'stored:no-distance', 'stored:error-column-other-unit')
+    ctx.require_regimes('stored:desc-wav', 'stored:asc-wav', 'read-order:nu', 'read-order:wav', 'stored:nu-in-GHz', 'stored:no-distance', 'stored:error-column-other-unit', 'stored:float32')
     d = ctx.newdir('c15')
     names = list(UNITS)
     ic = 0
@@ -114,7 +117,7 @@ def run(ctx):
                 n_w = int(rng.integers(2, 30))
                 wav = np.sort(gen.loguniform(rng, 0.1, 1000.0, n_w))
                 nu = pkg.C_UM_HZ / wav
-                dist_kpc = float(gen.loguniform(rng, 0.01, 100.0))
+                dist_kpc = float(gen.loguniform(rng, 0.01, 100.0)) if (ic + rep) % 3 != 2 else float(gen.loguniform(rng, 50.0, 3000.0))
                 d_cm = dist_kpc * KPC_CM
                 f = 10.0 ** rng.uniform(-4, 4, (n_ap, n_w))
                 e = f * 0.1
@@ -146,7 +149,13 @@ def run(ctx):
                     if a in ('mJy', 'Jy') and not legacy and (rep % 2 == 0 or rng.random() < 0.3):
                         err_unit, efac = ('Jy', 1e3) if a == 'mJy' else ('mJy', 1e-3)     # efac: stored-error-unit per flux unit
                         ctx.regime('stored:error-column-other-unit')
-                    pkg.write_sed_file(path, 'x', wav, nu, aps, f, e / efac, descending_wav=dw, fmt='D',
+                    # single-precision files (1E, the documented format): what is stored is the float32 rounding of the values
+                    f32 = (ic + rep) % 3 == 2 and nu_unit is None and err_unit is None
+                    if f32:
+                        f, e = pkg.r32(f), pkg.r32(e)
+                        wav, nu = pkg.r32(wav), pkg.r32(nu)
+                        ctx.regime('stored:float32')
+                    pkg.write_sed_file(path, 'x', wav, nu, aps, f, e / efac, descending_wav=dw, fmt='E' if f32 else 'D',
                                        legacy_units=legacy, flux_unit=spelling, distance_cm=None if no_dist else d_cm,
                                        nu_unit=nu_unit, err_unit=err_unit)
                     fs, es, wav_s, nu_s = f[:, ::-1], e[:, ::-1], wav[::-1], nu[::-1]      # reference arrays in ascending frequency
@@ -197,7 +206,8 @@ def run(ctx):
                     ge = np.asarray(r.error.to(UNITS[b][0]).value, float)
                     if order == 'wav':          # ascending wavelength = descending frequency: pair cells by frequency
                         nu_r, gf, ge = nu_r[::-1], gf[:, ::-1], ge[:, ::-1]
-                    if not O.close(nu_r, nu_s, 1e-12) or not O.close(gf, ref_f, 1e-12) or not O.close(ge, ref_e, 1e-12):
+                    rt_ = 1e-12 if not (spelling != '<SED.write>' and f32) else 1e-6       # (single-precision results are accepted for single-precision files; overflow is not)
+                    if not O.close(nu_r, nu_s, rt_) or not O.close(gf, ref_f, rt_) or not O.close(ge, ref_e, rt_):
                         ctx.violation('read:%s->%s' % (a, b), 'SED.read(unit_flux=...) values are not related by F = nu F_nu, L = F d^2',
                                       dict(wit, got=gf[0][:4], expected=ref_f[0][:4]))
                     ctx.case(('read', ic, b, ctx.shard), nontrivial=a != b, sample=wit if a != b else None)
